@@ -31,7 +31,7 @@ DIAG = {"cache_hits", "cache_misses", "cache_used", "cache_enabled", "cache_hit"
 KINDS = ["repeat", "other-agent", "edge-replace-same-count", "node-label-change", "episode-add", "apply", "kill-switch-turn", "cfg:k_retrieval", "cfg:ranking",
          "cfg:sim_threshold", "cfg:owner_scope", "cfg:now", "cfg:now-same-day", "cfg:residual_cap", "cfg:tiers", "cfg:exact_recent_days", "cfg:hybrid", "gel-edge-change",
          "cfg:t1.queue_budget", "cfg:t1.decay", "slice-cap", "switch-state", "node-add", "edge-add",
-         "switch-state-reordered", "text-variant", "episode-readd-same-id", "slice-cap-t1", "index-clear-refill", "cfg:perf-master-with-t1-caps", "graph-apply-deltas", "replace-state"]
+         "switch-state-reordered", "text-variant", "episode-readd-same-id", "slice-cap-t1", "index-clear-refill", "cfg:perf-master-with-t1-caps", "graph-apply-deltas", "replace-state", "fork-state"]
 
 
 def gen_history(rng, kind=None):
@@ -269,6 +269,13 @@ def check_history(case, sess: Session):
             ec2.__enter__(); eu2.__enter__()
             envs["C"].append(ec2)
             envs["U"].append(eu2)
+        if kind == "fork-state":
+            # a second environment per engine; its state becomes a deep copy of the first one's at the first mutation step
+            # (i.e. after the first state has served turns), and both copies live on, each learning something different
+            for name_, e0 in (("C", ec), ("U", eu)):
+                f_ = TurnEnv(cfg_c if name_ == "C" else cfg_u, copy.deepcopy(case["world"]), cfg_obj=e0.cfg)
+                f_.__enter__()
+                envs[name_].append(f_)
         if kind == "switch-state":
             # a second, independent engine state per engine: same graph ids and node/edge counts, other content
             w2 = copy.deepcopy(case["world"])
@@ -312,6 +319,24 @@ def check_history(case, sess: Session):
                             new_env.__enter__()
                             extra_envs.append(new_env)
                             envs[name_] = [new_env]
+                        holder["pending"] = op
+                        continue
+                    if kind == "fork-state":
+                        if not holder.get("forked"):
+                            holder["forked"] = True
+                            for name_ in ("C", "U"):
+                                envs[name_][1].state = copy.deepcopy(envs[name_][0].state)
+                        # odd steps: each copy learns something different (both indexes advance by one entry) and the same copy is
+                        # asked again; even steps: the other copy - same number of entries, other content - is asked
+                        from vlib.harness import build_index
+                        holder["fork_step"] = holder.get("fork_step", 0) + 1
+                        if holder["fork_step"] % 2 == 1:
+                            for name_ in ("C", "U"):
+                                for which, txt in ((0, "hello world moon river cat alpha"), (1, "hello world moon river cat omega")):
+                                    tmp = build_index([{"id": f"fk{op['i']}_{which}", "owner": "A", "text": txt + f" {op['i'] % 5}", "ts": "2023-11-14T00:00:00Z", "vec": "enc", "aux": {"importance": 1.0}}])
+                                    envs[name_][which].state["mem_index"].add(tmp._eps[0])
+                        else:
+                            cur = 1 - cur
                         holder["pending"] = op
                         continue
                     if kind in ("switch-state", "switch-state-reordered"):
@@ -448,7 +473,7 @@ def check_history(case, sess: Session):
                 if d1 is not None or d2 is not None:
                     return  # states have diverged; stop this history
         finally:
-            if kind in ("switch-state", "switch-state-reordered"):
+            if kind in ("switch-state", "switch-state-reordered", "fork-state"):
                 for e in (envs["C"][1], envs["U"][1]):
                     e.__exit__(None, None, None)
             for e in extra_envs:
